@@ -584,11 +584,13 @@ Section Histories.
     monotone_from t h ->
     snd (exec {| w_cache := c; w_invalid := inv |} h) =
       spec_exec n maxAge {| s_log := rev w ++ old; s_invalid := inv |} h /\
-    zlen (c_dict (w_cache (fst (exec {| w_cache := c; w_invalid := inv |} h)))) <= n - 1.
+    zlen (c_dict (w_cache (fst (exec {| w_cache := c; w_invalid := inv |} h)))) <= n - 1 /\
+    exists w', Rep (w_cache (fst (exec {| w_cache := c; w_invalid := inv |} h))) w' /\ asc w'.
   Proof.
     induction h as [|[now o] h IH]; intros c w old t inv Hrep Hlen Hage Hrel Hmono.
-    - cbn [exec spec_exec fst snd w_cache]. split; [reflexivity|].
-      pose proof (rep_size c w Hrep). pose proof (rep_len c w Hrep). lia.
+    - cbn [exec spec_exec fst snd w_cache]. split; [reflexivity|]. split.
+      + pose proof (rep_size c w Hrep). pose proof (rep_len c w Hrep). lia.
+      + exists w. split; [exact Hrep|exact (rel_asc _ _ _ _ _ Hrel)].
     - destruct Hmono as [Ht Hmono]. rewrite exec_cons, spec_exec_cons. cbn [fst snd].
       destruct o as [id|id s| |s b]; cbn [apply spec_apply fst snd w_cache w_invalid s_log s_invalid] in *.
       + (* Get *)
@@ -640,7 +642,8 @@ Proof.
 Qed.
 
 Lemma exec_init n maxAge h : 1 <= n -> monotone h ->
-  outcomes n maxAge h = spec_outcomes n maxAge h /\ zlen (c_dict (final_cache n maxAge h)) <= n - 1.
+  outcomes n maxAge h = spec_outcomes n maxAge h /\ zlen (c_dict (final_cache n maxAge h)) <= n - 1 /\
+  exists w, Rep (final_cache n maxAge h) w /\ asc w.
 Proof.
   intros Hn Hm. destruct (monotone_start h Hm) as [t Ht].
   destruct (init_rep n maxAge Hn) as [Hrep Hlen].
@@ -654,7 +657,7 @@ Proof. intros n maxAge h Hn Hm. exact (proj1 (exec_init n maxAge h Hn Hm)). Qed.
 
 Lemma cache_size_bound_all : forall n maxAge h,
   1 <= n -> monotone h -> zlen (c_dict (final_cache n maxAge h)) <= n - 1.
-Proof. intros n maxAge h Hn Hm. exact (proj2 (exec_init n maxAge h Hn Hm)). Qed.
+Proof. intros n maxAge h Hn Hm. exact (proj1 (proj2 (exec_init n maxAge h Hn Hm))). Qed.
 
 (* specification outcomes are always documented ones *)
 Lemma spec_documented n maxAge : forall h st, all_documented h (spec_exec n maxAge st h) = true.
@@ -671,4 +674,25 @@ Lemma cache_no_internal_error_all : forall n maxAge h,
 Proof.
   intros n maxAge h Hn Hm. rewrite (cache_refines_spec_all n maxAge h Hn Hm).
   apply spec_documented.
+Qed.
+
+(* The invariant the age test of _purge relies on ("elements in list are ordered in time, we can
+   break once we reach the first non-expired element"): after every history with a monotone clock the
+   live slots of the circular list, read from firstIndex to lastIndex, carry non-decreasing
+   timestamps.  It holds because every store stamps its slot with the clock value of its own position
+   in the history, i.e. because the clock is read at the linearization point. *)
+Definition live_slots_sorted (c : cache) : Prop :=
+  exists w : list went,
+    zlen w <= zlen (c_list c) - 1 /\
+    c_last c = (c_first c + zlen w) mod zlen (c_list c) /\
+    (forall j e, nth_error w j = Some e ->
+       nth_error (c_list c) (Z.to_nat ((c_first c + Z.of_nat j) mod zlen (c_list c))) = Some (Some (wid e, wts e))) /\
+    asc w.
+
+Lemma cache_timestamps_sorted_all : forall n maxAge h,
+  1 <= n -> monotone h -> live_slots_sorted (final_cache n maxAge h).
+Proof.
+  intros n maxAge h Hn Hm. destruct (proj2 (proj2 (exec_init n maxAge h Hn Hm))) as [w [Hrep Ha]].
+  exists w. split; [exact (rep_len _ _ Hrep)|]. split; [exact (rep_last _ _ Hrep)|].
+  split; [exact (ws_slots _ _ _ _ _ (rep_win _ _ Hrep))|exact Ha].
 Qed.
